@@ -664,8 +664,13 @@ tcptran_ep_close(void *arg)
 	NNI_LIST_FOREACH (&ep->negopipes, p) {
 		nni_pipe_close(p->npipe);
 	}
-	NNI_LIST_FOREACH (&ep->waitpipes, p) {
+	while ((p = nni_list_first(&ep->waitpipes)) != NULL) {
+		// These finished negotiating but were never handed to the
+		// socket, so nobody else will drop the reference we hold
+		// from creating them.
+		nni_list_remove(&ep->waitpipes, p);
 		nni_pipe_close(p->npipe);
+		nni_pipe_rele(p->npipe);
 	}
 	nni_mtx_unlock(&ep->mtx);
 }
